@@ -455,7 +455,7 @@ class ExprMixin:
             else: raise Undecided('index %r' % (i,))
         if isinstance(b, VList):
             j = i.t if self.spec_mode else self.norm_index(b.len, i.t, p, line)
-            return wrap(b.kind, z3.Select(b.arr, j))
+            return self.wrapk(b.kind, z3.Select(b.arr, j))
         if isinstance(b, (VCList, VTuple)):
             n = len(b.items)
             if z3.is_int_value(i.t):
